@@ -148,16 +148,26 @@ def discharge(ob: str, body: bytes):
 
 def rom_verdict(ans: str, img: bytes):
     """(accepted?, reason, plain) for a driver answer, discharging the obligations"""
-    if not ans.startswith("accept "):
+    if ans.startswith("reject:"):
         return False, ans, None
-    kv = dict(t.split("=", 1) for t in ans.split(" ")[1:])
-    strip = int(kv["strip"])
+    if not ans.startswith("accept "):
+        return None, ans, None           # neither verdict: the driver did not evaluate the ROM spec (died / fault / protocol slip)
+    try:
+        kv = dict(t.split("=", 1) for t in ans.split(" ")[1:])
+        strip = int(kv["strip"])
+        obl = [o for o in kv["obs"].split(";") if o]
+        plain = bytes.fromhex(kv["plain"]) if kv["plain"] not in ("none", "-") else None
+    except (KeyError, ValueError):
+        return None, ans, None
     body = img[:64] + img[64 + strip:] if strip else img
-    for ob in [o for o in kv["obs"].split(";") if o]:
-        why = discharge(ob, body)
+    for ob in obl:
+        try:
+            why = discharge(ob, body)
+        except (ValueError, IndexError, KeyError) as exc:
+            return None, f"malformed obligation {ob[:60]}: {exc}", None
         if why is not None:
             return False, "obligation:" + why, None
-    return True, "accept", (bytes.fromhex(kv["plain"]) if kv["plain"] not in ("none", "-") else None)
+    return True, "accept", plain
 
 
 # ---------------------------------------------------------------------------------------------- cases (worker side)
@@ -299,9 +309,10 @@ def run(ck):
     global ROWS
     logging.disable(logging.CRITICAL)
     ck.lean_obligations(generated=["MbiClasses", "IvtConsts"])
+    # both ops of drv_c02 (`rom`: Spec/MbiRom.lean romCheck, `rotkh`: Spec/Rotkh.lean) evaluate Spec-only definitions: the driver
+    # imports nothing generated from /repo and no model of the code (Driver/C02.lean: Spec.MbiRom, Spec.Rotkh, Crypto.Exec)
+    ck.spec_ops = {"rom", "rotkh"}
     drv = ck.driver()
-    if drv is None:
-        raise Infra("the ROM model driver drv_c02 does not build: " + str(ck.broken[-1:]))
     ROWS = C1.live_rows()
     C1.ROWS = ROWS
     C1.check_generated_rows(ck, ROWS, ck.generated_meta["MbiClasses"])
@@ -330,9 +341,18 @@ def run(ck):
     ctx = multiprocessing.get_context("fork")
     with ctx.Pool(min(8, os.cpu_count() or 2), initializer=C1._worker_init) as pool:
         results = sorted(pool.imap_unordered(_work, tasks, chunksize=2), key=lambda x: x[0])
+    if drv is None:
+        # the ROM spec driver is not available (recorded in ck.broken by ck.driver()): what does not need it - the real-code
+        # oracle of the workers - is still reported; the acceptance / bit-flip verdicts cannot be evaluated: no verdict is invented
+        for ri, out in results:
+            for case, obs, fails in out:
+                for what, o, x in fails:
+                    s.expect(False, {"row": list(ROWS[ri][:5]), "case": case}, what, o, x)
+        return
     drivers = [drv]
     for _ in range(3):
-        d = vcore.Driver(drv.exe)
+        d = vcore.Driver(drv.exe, on_death=lambda msg: ck.broken.append(msg + " - correspondence cannot be evaluated"),
+                         spec_ops=lambda: set(ck.spec_ops or ()))
         ck.drivers.append(d)
         drivers.append(d)
     # ---- the fused RKTH: the documented construction (compiled Spec.rotkh of C03) over the raw key numbers
@@ -378,6 +398,9 @@ def run(ck):
             mixins = row[6]
             ok, why, plain = rom_verdict(ans[0], imgs[0])
             s.note((inp["row"], inp["case"]), cls=f"{row[2]}/{row[3]}")
+            if ok is None:
+                s.compare(inp, "accept … | reject:…", why[:120], "the ROM spec driver gave no verdict (neither accept nor reject): the acceptance oracle cannot be evaluated")
+                continue
             s.expect(ok, inp, "the independent ROM model does not accept an image SPSDK exported", why[:300], "accept")
             if not ok:
                 continue
@@ -398,6 +421,9 @@ def run(ck):
                 if name == "keystore":
                     continue
                 ok2, why2, _ = rom_verdict(a, img)
+                if ok2 is None:
+                    sf.compare({**inp, "flip": [name, p, bit]}, "accept … | reject:…", why2[:120], "the ROM spec driver gave no verdict on a corrupted image")
+                    continue
                 sf.expect(not ok2, {**inp, "flip": [name, p, bit]},
                           f"a single-bit corruption in region '{name}' is still accepted by the ROM model (the region is not covered by any check)", why2[:200], "reject")
 
